@@ -55,12 +55,18 @@ fn gen_cases(seed: u64, n: usize, max_payload: usize) -> Vec<String> {
     let mut rng = Rng::new(seed);
     let mut out = Vec::new();
     for i in 0..n {
-        let echo_path = rng.chance(1, 3);
+        let mut echo_path = rng.chance(1, 3);
         let q: Vec<u8> = if echo_path { rng.pick(PATHS).as_bytes().to_vec() } else {
             let l = match rng.below(6) { 0 => 0, 1 => rng.below(4), 2 => rng.below(64), 3 => rng.below(300), _ => rng.below(max_payload as u64 + 1) } as usize;
             rng.bytes(l)
         };
         let bl = match rng.below(6) { 0 => 0, 1 => rng.below(4), 2 => rng.below(64), 3 => rng.below(300), _ => rng.below(max_payload as u64 + 1) } as usize;
+        // the 64 KiB boundary of the property's range, in both tiers: a query or a body of 2^16 - 1,
+        // 2^16, 2^16 + 1 bytes (a length that was narrowed to 16 bits would wrap exactly here)
+        let edge = [65535usize, 65536, 65537];
+        // (a random query is not a route: the handler then answers through the `/mirror` request)
+        if matches!(i, 3 | 4 | 5 | 9) { echo_path = false; }
+        let (q, bl) = match i { 3 | 4 | 5 => (rng.bytes(edge[i - 3]), bl.min(64)), 6 | 7 | 8 => (q, edge[i - 6]), 9 => (rng.bytes(65536), 65536), _ => (q, bl) };
         let b = rng.bytes(bl);
         let total = 48 + q.len() + b.len();
         // header: mostly consistent lengths, sometimes off by one / garbage
@@ -136,9 +142,22 @@ fn run_case(line: &str) -> String {
     let echo = f["echo"] == "1";
     let fw = f.get("fw").map(|s| ph(s) as usize).unwrap_or(5);
     let r = guard(move || -> String {
-        let m = match Message::new(header, q.clone(), b.clone()) { Ok(m) => m, Err(e) => return format!("new=err:{}", err_kind(&e)) };
+        // the builder route: the same query, body, id, notify flag and format codes through
+        // MessageBuilder (an error code only when it is one the ErrorCode enum names); reported as
+        // its 48 header bytes, whether the payload is query ++ body, and the error code used
+        let bld = {
+            let code = repe::ErrorCode::try_from(header.ec).ok();
+            let mut bd = Message::builder().id(header.id).notify(header.notify != 0).query_bytes(q.clone()).query_format_code(header.query_format)
+                .body_bytes(b.clone()).body_format_code(header.body_format);
+            if let Some(k) = code { bd = bd.error_code(k); }
+            let v = bd.build().to_vec();
+            let payload_ok = v.len() >= 48 && v[48..] == [q.as_slice(), b.as_slice()].concat()[..];
+            format!(" bld={}:{}:{}", hex(&v[..v.len().min(48)]), payload_ok as u8, hx(code.map(|_| header.ec as u64).unwrap_or(0)))
+        };
+        let m = match Message::new(header, q.clone(), b.clone()) { Ok(m) => m, Err(e) => return format!("new=err:{}{bld}", err_kind(&e)) };
         let mut o = String::new();
         o.push_str(&format!("new={}", msg_s(&m)));
+        o.push_str(&bld);
         let tv = m.to_vec();
         o.push_str(&format!(" r0={}", hex(&tv)));
         // write_to
